@@ -343,3 +343,51 @@ def run_envs(run, rng, thorough, classes):
     for envname in envs:
         check_env(run, envname, gen_env_cases(rng, sorted(classes), 200 if thorough else 36))
     run.extra["process_environments"] = envs
+
+
+# ----------------------------------------------------------------------------- nesting limit of the loader (Model/JsonLimits.lean)
+def measure_load_limit():
+    """the number of nested containers json.loads accepts in this interpreter (C recursion limit; independent of the Python stack)"""
+    def ok(d):
+        try:
+            json.loads("[" * d + "]" * d)
+            return True
+        except RecursionError:
+            return False
+    lo, hi = 1, 1 << 20
+    while lo < hi:
+        m = (lo + hi + 1) // 2
+        if ok(m):
+            lo = m
+        else:
+            hi = m - 1
+    return lo
+
+
+def check_depth(run, drv, pend, tmp):
+    """files nested just below / at / beyond the limit through the real FileSystem.load: a value or RecursionError, as `loadLimited`"""
+    from csep.core.repositories import FileSystem
+    L = measure_load_limit()
+    run.extra["json_load_nesting_limit"] = L
+    path = os.path.join(tmp, "deep.json")
+    for kind in ("a", "o", "m"):
+        per = 2 if kind == "m" else 1
+        for d in sorted({1, 2, max(1, L // per - 1), max(1, L // per), L // per + 1, L // per + 7}):
+            if kind == "a":
+                txt = "[" * d + "]" * d
+            elif kind == "o":
+                txt = '{"k":' * d + "1" + "}" * d
+            else:
+                txt = '[{"k":' * d + "0" + "}]" * d
+            open(path, "w").write(txt)
+            case = dict(mode="text-depth", kind=kind, depth=d, limit=L)
+            run.case(case, ("text-depth", kind, d - L // per))
+            try:
+                FileSystem(url=path).load(_Ident)
+                impl = "0"
+            except RecursionError:
+                impl = "2"
+            except ValueError:
+                impl = "1"
+            pend.append(("eq:c18_text_depth", case, drv.ask(f"c18_text_depth {L} {kind} {d}"), impl))
+            run.count(f"text-depth:{'value' if impl == '0' else 'RecursionError' if impl == '2' else 'invalid'}")
